@@ -198,6 +198,44 @@ pub fn check_state(repo: &Repo, fmt: &str, cx: &mut Cx) -> Res {
         cx.label(["override:clean", "override:no-dirty", "override:dirty", "override:distance", "override:branch+hash", "override:no-bump-context", "override:bumped-timestamp", "override:no-dirty+distance0"][variant]);
         cx.extra_evals += 1;
     }
+    // --- what git ignores is decided by the user's configuration too: a file excluded only by the
+    // global core.excludesFile (editor backups, .DS_Store) is not a change
+    if fmt == "auto" {
+        let root = std::env::var("VERIF_ROOT").unwrap_or_else(|_| "/verif".into());
+        let cfgdir = std::path::Path::new(&root).join(".cache").join("gitcfg");
+        let cfg = cfgdir.join("gitconfig");
+        static CFG_ONCE: std::sync::Once = std::sync::Once::new();
+        CFG_ONCE.call_once(|| {
+            let _ = std::fs::create_dir_all(&cfgdir);
+            let _ = std::fs::write(cfgdir.join("ignore"), "*.globalign\n");
+            let _ = std::fs::write(&cfg, format!("[core]\n\texcludesFile = {}\n", cfgdir.join("ignore").display()));
+        });
+        let f = repo.dir.join("editor-backup.globalign");
+        if std::fs::write(&f, "x\n").is_ok() {
+            let o3 = proc::run(&proc::Spec {
+                args: crate::cli::sv(&["version", "-C", &repo.path(), "--input-format", fmt, "--output-format", "zerv"]),
+                cwd: Some("/".into()),
+                env: vec![("GIT_CONFIG_GLOBAL".into(), cfg.to_string_lossy().into_owned())],
+                ..Default::default()
+            });
+            let _ = std::fs::remove_file(&f);
+            if o3.timed_out {
+                infra("zerv version -C timed out");
+                return Ok(());
+            }
+            ensure!(o3.code == Some(0), "zerv failed under a global git configuration with core.excludesFile (exit {:?}: {}) ({})", o3.code, o3.err_str().trim(), ctx());
+            let z3 = zerv::version::Zerv::from_str(&o3.out_str()).map_err(|e| Bad::Fail(format!("output does not parse: {e}")))?;
+            ensure!(
+                z3.vars.dirty == Some(m.dirty()),
+                "dirty {:?} with an untracked file that the user's global core.excludesFile ignores; git status is {} ({})",
+                z3.vars.dirty,
+                if m.dirty() { "dirty for other reasons" } else { "clean" },
+                ctx()
+            );
+            cx.label("global-excludes-file");
+            cx.extra_evals += 1;
+        }
+    }
     // --- source equivalence (clock-free states): the object extracted from git, piped into
     // `--source stdin`, gives what the git source gives directly, for version with a schema and for flow
     if !m.dirty() {
@@ -307,6 +345,7 @@ pub fn op_strategy() -> BoxedStrategy<Op> {
         1 => Just(Op::TouchUnchanged),
         1 => Just(Op::EmptyDir),
         1 => (0usize..8).prop_map(|which| Op::BranchLikeTag { which }),
+        1 => (0usize..8, any::<bool>()).prop_map(|(which, tracked)| Op::FileLikeRef { which, tracked }),
     ]
     .boxed()
 }
